@@ -2,7 +2,7 @@ CONSTANTS
   Part = "shared"
   G = {"g1", "g2", "g3"}
   Programs <- ProgShared
-  NExch = 2  WholeCall = TRUE  Locked = FALSE
+  NExch = 2  WholeCall = TRUE  Locked = FALSE  NotifyInside = TRUE
   V = {"v1"} DocOf <- DocOf1 SignTime <- SignTimeAB ValidAt <- ValidAtAB PerCallContext = TRUE
   C = {"c1"}
 INIT Init
